@@ -113,6 +113,9 @@ def run(ctx):
                       'callers testing with the %s idiom take this for success' % (
                           fn.name, conv, mask_str(extra), node.line, show(node.e), conv), node.file, node.line,
                       config=config)
+        from ..rules import extra
+        nd = extra.check_no_downgrade(ck, prog, config, 'C12-d')
+        ck.min_instances('callers of write_data', nd, 5)
         ck.extra.setdefault('inferred_conventions', {}).update(convs.inferred)
         n_units, hits = unused_result_witness(config)
         for f, line, text in hits:
